@@ -12,6 +12,7 @@ import Wharf.Model.Lru
 import Wharf.Model.Patch
 import Wharf.Model.Rediff
 import Wharf.Model.Wire
+import Wharf.Model.Proto
 import Wharf.Model.FS
 import Wharf.Model.TreeValidate
 import Wharf.Model.SafeKeeper
@@ -240,6 +241,38 @@ def showMsgAs (kind : String) (m : Patch.WMsg) : String :=
          if o.type == 0 then s!"R {o.fileIndex} {o.blockIndex} {o.blockSpan}"
          else if o.type == 1 then s!"D {o.data.length} {fnvList o.data}"
          else if o.type == 2049 then "E" else s!"O? {o.type}"
+
+def bytesHex (b : List Byte) : String :=
+  if b.isEmpty then "-" else
+    let d (n : Nat) : Char := if n < 10 then Char.ofNat (48 + n) else Char.ofNat (87 + n)
+    String.ofList (b.flatMap fun x => [d (x.toNat / 16), d (x.toNat % 16)])
+
+def showMsgFull (kind : String) (m : Patch.WMsg) : String :=
+  match kind with
+  | "H" => let h := Patch.asSyncHeader m; s!"H {h.type} {h.fileIndex}"
+  | "B" => s!"B {Patch.asBsdiffHeader m}"
+  | "C" => let c := Patch.asControl m; s!"C {bytesHex c.add} {bytesHex c.copy} {c.seek} {if c.eof then 1 else 0}"
+  | _ => let o := Patch.asSyncOp m; s!"O {o.type} {o.fileIndex} {o.blockIndex} {o.blockSpan} {bytesHex o.data}"
+
+/-- `protodec <H|O|B|C> <hex|->`: `proto.Unmarshal` of the bytes into that message type, in the model:
+    the typed view in full, or `err`. -/
+def doProtoDec (args : List String) : IO String := do
+  match args with
+  | [kind, h] =>
+    let bs : List Byte := if h == "-" then [] else (hexToBytes h).toList
+    match Proto.unmarshal bs with
+    | none => return "err"
+    | some m => return showMsgFull kind m
+  | _ => return "bad-op"
+
+/-- `protoenc <message line>`: `proto.Marshal` of that message in the model, as hex. -/
+def doProtoEnc (args : List String) : IO String := do
+  match parseMsgLine (" ".intercalate args), args.head? with
+  | some m, some "H" => return bytesHex (Proto.encode (Proto.ofSyncHeader (Patch.asSyncHeader m)))
+  | some m, some "O" => return bytesHex (Proto.encode (Proto.ofSyncOp (Patch.asSyncOp m)))
+  | some m, some "B" => return bytesHex (Proto.encode (Proto.ofBsdiffHeader (Patch.asBsdiffHeader m)))
+  | some m, some "C" => return bytesHex (Proto.encode (Proto.ofControl (Patch.asControl m)))
+  | _, _ => return "bad-op"
 
 def csvNats (s : String) : List Nat := if s == "-" || s == "" then [] else (s.splitOn ",").map parseNat
 
@@ -569,6 +602,8 @@ def dispatch (line : String) : IO String := do
   | "heal" :: args => doHeal args
   | "commit" :: args => doCommit args
   | "c13parse" :: args => doC13Parse args
+  | "protodec" :: args => doProtoDec args
+  | "protoenc" :: args => doProtoEnc args
   | "analyze" :: args => doAnalyze args
   | "optimize" :: args => doOptimize args
   | "lru" :: args => doLru args
